@@ -250,7 +250,7 @@ def choose_faults(ctx: C.Ctx, seeds: List[S.SeedDoc], cal) -> List[Tuple[S.SeedD
                 elif f["kind"] == "replace":
                     by_site[json.dumps([f["target"], f["obj"], f["path"]], default=str)].append(f)
                 elif f["kind"] == "extreme":
-                    if rng.random() < 0.25 * ctx.boost:
+                    if rng.random() < 0.2 * ctx.boost:
                         chosen.append(f)
                 elif f["kind"] == "inline":
                     if rng.random() < 0.5 * ctx.boost:
@@ -265,14 +265,16 @@ def choose_faults(ctx: C.Ctx, seeds: List[S.SeedDoc], cal) -> List[Tuple[S.SeedD
                         chosen.append(f)
                 if rng.random() < 0.25 * ctx.boost:
                     chosen.append(rng.choice(fs))
-            npay = min(len(payload), ctx.n(170, 0))
+            npay = min(len(payload), ctx.n(120, 0))
             chosen += rng.sample(payload, npay)
             # every truncation point of every RunLength-coded payload (a cut right after a length byte is
             # a single position per run)
             for f in payload:
                 if f["how"] == "truncate" and f["target"] == "obj" and _is_runlength(s.objs.get(f["obj"])):
                     chosen.append(f)
-            chosen += rng.sample(trunc, min(len(trunc), ctx.n(110, 0)))
+                elif f["how"] == "hugecm":
+                    chosen.append(f)
+            chosen += rng.sample(trunc, min(len(trunc), ctx.n(80, 0)))
         for f in chosen:
             if thorough:
                 if f["kind"] in ("ref", "extreme", "inline", "remove"):
